@@ -116,10 +116,33 @@ META["C06"] = dict(
 META["C12"] = dict(
     engine="lean+harness(sched)",
     design_ref="DESIGN.md section 5, C12",
-    technique="release specification evaluated on real schedules of flushTick/Flush steps (verif setter pins the rate); Lean small-step rate model (in progress)",
+    technique="Lean 4 proof over a small-step model of flushTick/Flush/run (invariant by induction over all schedules) + release specification evaluated on real schedules of the hook points",
     text="Writers are forced onto the waiting path (burst 0, tiny measured rate) on a Started store; scheduling points inside flushTick and "
          "Flush; the store's own flusher goroutine runs freely and is logged. The driver reports a writer still parked on the notice after a "
-         "flush completed after its wait began. The small-step model and C12_release/C12_signal are being proved; proved core today: "
-         "record-list theorems (shared).",
+         "flush completed after its wait began. Proved for every number of writers/Flush callers and every "
+         "schedule: a registered writer holds the current notice, any completing Flush (normal or no-work exit) releases it, a parked "
+         "writer always has a token or a flush in progress, the ticker keeps the flusher enabled; the D6 schedule is a proved negative "
+         "witness for the unrepaired variant.",
     note=SCHED_NOTE + " Weak fairness of the flusher is assumed for the liveness reading.",
+)
+
+META["C11"] = dict(
+    engine="lean+harness(seq)",
+    design_ref="DESIGN.md section 5, C11",
+    technique="byte-level Lean model of both collectors compared with the real ones over drain histories + progress bounds evaluated on the real directory",
+    text="Histories ending with files without live data are run through bounded GC rounds; the bounds of the property (dead primary file "
+         "released in <= 2 cycles, unreferenced index file in <= 2 cycles, no growth of reported storage, fixed point) are evaluated on the "
+         "real store's own views and the model is compared byte-for-byte. The progress theorems (C11_primary_dead_file etc.) are stated "
+         "in DESIGN.md and not yet proved; proved core = record-list theorems.",
+    note=SEQ_NOTE,
+)
+META["C13"] = dict(
+    engine="lean+harness(seq)",
+    design_ref="DESIGN.md section 5, C13",
+    technique="multiset accounting specification evaluated on the real store's index entries and freelist after every operation; model views compared",
+    text="After every mutating operation the locations named by live index entries and the recorded locations (freelist pool, file, .gc) "
+         "of the real store are listed; superseded = newly recorded, nothing twice, nothing current, nothing vanishes without GC, a "
+         "complete cycle consumes everything recorded before it. The accounting theorem (C13_accounting) is stated in DESIGN.md and not "
+         "yet proved; proved core = record-list theorems (frame: update/remove touch exactly one entry).",
+    note=SEQ_NOTE,
 )
